@@ -33,7 +33,7 @@ def _scheme(sa):
     return sorted((tuple(int(x) for x in cg.levelvector), int(cg.coefficient)) for cg in sa.scheme)
 
 
-def resume(S, d, lmin, lmax, version, boundary, out_len, cap, pool, persist, via='continue'):
+def resume(S, d, lmin, lmax, version, boundary, out_len, cap, pool, persist, via='continue', reevaluate=False):
     SD, GO, G, EC, RO, RC = dw.mods()
     m1 = S.int('M1')
     m2 = S.int('M2')
@@ -44,12 +44,14 @@ def resume(S, d, lmin, lmax, version, boundary, out_len, cap, pool, persist, via
     fB = lib.make_function(S, 'F', d, out_len)
     saB, opB, _ = dw.make_instance(fB, [0.0] * d, [1.0] * d, boundary=boundary, version=version)
     opB.validation_set = None
-    resB = saB.performSpatiallyAdaptiv(lmin, lmax, drv.ScriptedRoundErrors(saB, d, None, 1, pool), tol=-1.0, max_evaluations=m2, print_output=False)
+    resB = saB.performSpatiallyAdaptiv(lmin, lmax, drv.ScriptedRoundErrors(saB, d, None, 1, pool), tol=-1.0, max_evaluations=m2, print_output=False, reevaluate_at_end=reevaluate)
     # run A (interrupted at M1)
     fA = lib.make_function(S, 'F', d, out_len)
     saA, opA, _ = dw.make_instance(fA, [0.0] * d, [1.0] * d, boundary=boundary, version=version)
     opA.validation_set = None
-    resA1 = saA.performSpatiallyAdaptiv(lmin, lmax, drv.ScriptedRoundErrors(saA, d, None, 1, pool), tol=-1.0, max_evaluations=m1, print_output=False)
+    resA1 = saA.performSpatiallyAdaptiv(lmin, lmax, drv.ScriptedRoundErrors(saA, d, None, 1, pool), tol=-1.0, max_evaluations=m1, print_output=False, reevaluate_at_end=reevaluate)
+    if reevaluate:
+        S.prove(int(saA.get_total_num_points()) == int(resA1[6][-1]), 'resume:re-evaluation-at-the-end-keeps-the-number-of-points-used-so-far')
     S.observe('interrupted_at', len(resA1[5]))
     if persist:
         fn = os.path.join(os.getcwd(), 'c14_%d.dill' % os.getpid())
@@ -245,7 +247,7 @@ META = {
 MANIFEST_ENTRY = {
     'text': 'Two real driver runs on the same uninterpreted integrand - one interrupted at a symbolic limit M1 (optionally saved with dill and restored) and continued to M2, one '
             'uninterrupted - are compared state by state; the solver enumerates every (interruption point, stopping point) pair within the cap and decides equality of the results as terms in F.',
-    'note': 'Trusted: z3, LIFT proxies/numpy facade, dill. Bounded by the evaluation cap and the decision pool. Strategies: dimension-wise, extend-split (with dill), cell; both continuation routes (continue_adaptive_refinement, refinement_container). Known finding C14-K1 (extend-split through refinement_container) is reported as KNOWN-FINDING.',
+    'note': 'Trusted: z3, LIFT proxies/numpy facade, dill. Bounded by the evaluation cap and the decision pool. Strategies: dimension-wise, extend-split (with dill), cell; both continuation routes (continue_adaptive_refinement, refinement_container). Also with reevaluate_at_end=True.',
 }
 
 
@@ -278,6 +280,11 @@ def jobs(tier):
     for (d, lmin, lmax, v, nrbe, auto, out_len, cap, persist) in es_cfgs:
         js.append(Job('resume-es[d=%d,l=%d-%d,v=%d,nrbe=%d%s,out=%d,cap=%d,%s]' % (d, lmin, lmax, v, nrbe, ',auto' if auto else '', out_len, cap, 'dill' if persist else 'mem'), resume_es,
                       {'d': d, 'lmin': lmin, 'lmax': lmax, 'version': v, 'nrbe': nrbe, 'auto': auto, 'out_len': out_len, 'cap': cap, 'pool': 1 if (q and auto) else 2, 'persist': persist},
+                      validate=(5 if q else 2), budget_s=(600 if q else 3000)))
+    for (v, boundary) in ([(6, True)] if q else [(6, True), (3, True), (6, False)]):
+        cap = (27 if q else 33) - (0 if boundary else 18)
+        js.append(Job('resume-reeval[d=2,l=1-2,v=%d,%s]' % (v, 'b' if boundary else 'nb'), resume,
+                      {'d': 2, 'lmin': 1, 'lmax': 2, 'version': v, 'boundary': boundary, 'out_len': 1, 'cap': cap, 'pool': 2 if q else 3, 'persist': False, 'reevaluate': True},
                       validate=(5 if q else 2), budget_s=(600 if q else 3000)))
     for (v, boundary, reb) in ([(6, True, False)] if q else [(6, True, False), (6, True, True), (3, False, False)]):
         cap = (27 if q else 33) - (0 if boundary else 18)
